@@ -1734,10 +1734,18 @@ impl Evaluator {
         match self.context.first_context_data().unwrap().parms().scheme() {
             SchemeType::BFV | SchemeType::BGV => 
                 panic!("[Invalid argument] Rescale is only supported for CKKS scheme"),
-            SchemeType::CKKS => 
-                while encrypted.parms_id() != parms_id {
-                    self.mod_switch_scale_to_next_internal(encrypted, destination);
-                },
+            SchemeType::CKKS => {
+                let context_data = self.get_context_data(encrypted.parms_id());
+                let target_context_data = self.get_context_data(parms_id);
+                if context_data.chain_index() < target_context_data.chain_index() {
+                    panic!("[Invalid argument] Cannot rescale to a higher level");
+                }
+                *destination = encrypted.clone();
+                while destination.parms_id() != parms_id {
+                    let current = destination.clone();
+                    self.mod_switch_scale_to_next_internal(&current, destination);
+                }
+            },
             _ => panic!("[Invalid argument] Unsupported scheme")
         }
     }
